@@ -123,6 +123,11 @@ def field_table(ctx) -> Dict[str, Dict[str, str]]:
                 if cname == "Point" and tags <= {"num"}:
                     table[cname][f] = "positional"
                     continue
+                if tags <= {"num", "bool", "str"}:
+                    # a stored scalar on a geometry object (e.g. a memoised hash / measure): derived state that
+                    # goes stale when the object moves unless move() re-assigns or invalidates it
+                    table[cname][f] = "cache"
+                    continue
                 raise AnalysisError("cannot classify field %s.%s of type %s" % (cname, f, show(ty)))
     ctx.cache["c07.fields"] = table
     return table
@@ -168,6 +173,7 @@ class MoveAnalysis:
         self.sn = fi.self_name
         self.v = fi.params[1]
         self.pos = {f for f, k in fields.items() if k == "positional"}
+        self.cache = {f for f, k in fields.items() if k == "cache"}
         self.axis_of = point_axes(ctx) if fi.cls.name == "Point" else {}
         self.mismatch: List[Tuple[ast.AST, str]] = []
 
@@ -273,7 +279,9 @@ class MoveAnalysis:
             for t in a.targets:
                 f = self.self_field(t)
                 if f is not None:
-                    if self.is_empty_container(a.value) or self.derived(a.value, State(fresh, taint, axes), target=f):
+                    if f in self.cache:
+                        fresh.add(f)  # re-computed or invalidated
+                    elif self.is_empty_container(a.value) or self.derived(a.value, State(fresh, taint, axes), target=f):
                         fresh.add(f)
                     else:
                         fresh.discard(f)
@@ -342,7 +350,7 @@ def check_move(ctx, res, cname: str, fields: Dict[str, str]):
     exits_fall = g.exit in IN and any(p in IN and g.nodes[p].kind != "return" for p, _ in g.pred[g.exit])
     if not rets and not exits_fall:
         raise AnalysisError("%s.move: no normal exit reached from the Vector branch" % cname)
-    pos = sorted(f for f, k in fields.items() if k == "positional")
+    pos = sorted(f for f, k in fields.items() if k in ("positional", "cache"))
     for r in rets:
         st = ma.transfer(r, IN[r.id])
         st_before = IN[r.id]
@@ -352,8 +360,11 @@ def check_move(ctx, res, cname: str, fields: Dict[str, str]):
                    "translated / rebuilt from moved state on every path" if ok else "still holds pre-move data at `%s`" % txt(r.ast)[:50])
             if not ok:
                 res.violation("R7.1", fi, fi.node,
-                              "%s.move leaves the positional field `%s` where it was: queries on the moved object answer for the old "
-                              "position" % (cname, f), construct="%s.move does not refresh %s" % (cname, f),
+                              ("%s.move leaves the positional field `%s` where it was: queries on the moved object answer for the old "
+                               "position" % (cname, f)) if fields.get(f) != "cache" else
+                              ("%s.move neither re-computes nor invalidates the stored value `%s`: queries that read it answer for the "
+                               "position before the move" % (cname, f)),
+                              construct="%s.move does not refresh %s" % (cname, f),
                               detail={"refreshed on every path": sorted(st_before.fresh), "positional fields": pos})
         # R7.2
         v = r.ast.value
